@@ -13,6 +13,8 @@ from fractions import Fraction
 
 import numpy as np
 
+from pwlib.share import shcopy
+
 from pwlib import gens
 from pwlib.canon import flat
 from pwlib.engine import Case
@@ -128,6 +130,26 @@ def gen(rng, tier):
     for i in range(20 if quick else 100):
         yield {"op": "malformed", "which": rng.choice(["segs", "lines", "isp-v", "isp-q", "isp-n"]),
                "k": rng.randint(1, 4), "k2": rng.randint(0, 5), "ptseed": rng.randrange(1 << 30)}
+    # one polyline asked about two planes that share their canonical point (reference_point . normal) * normal -- both
+    # contain the origin -- in either order (history pairs, pwlib/share.py: the Polyline is the same object in both calls)
+    for i in range(60 if quick else 400):
+        stream = "lattice" if i % 2 == 0 else "float"
+        if stream == "lattice":
+            def origin_plane():
+                r = rng.random()
+                if r < 0.3:
+                    return {"ctor": rng.choice(["xy", "xz", "yz"])}
+                n = rng.choice(gens.AXES)
+                ref = gens.lat(rng, 3, rng.choice([1, 2]))
+                ref = [0.0 if abs(c) == 1 else x for x, c in zip(ref, n)]
+                return {"ctor": "init", "ref": ref if r < 0.7 else [0.0, 0.0, 0.0], "n": n}
+        else:
+            def origin_plane():
+                return {"ctor": "init", "ref": [0.0, 0.0, 0.0], "n": gens.unit(rng) if rng.random() < 0.7 else rng.choice(gens.AXES)}
+        p1, p2 = origin_plane(), origin_plane()
+        base = {"op": "seg-group", "stream": stream, "k": rng.choice([2, 3, 4, 5, 6, 8]), "closed": rng.random() < 0.4,
+                "ptseed": rng.randrange(1 << 30), "gen_plane": p1}
+        yield {"op": "pair", "first": dict(base, plane=p1, also=[p2]), "second": dict(base, plane=p2, also=[p1])}
     if not quick:
         for pi in range(len(EXH_PLANES)):
             for ai in range(len(EXH_POINTS)):
@@ -190,18 +212,22 @@ def well_conditioned(pi, a, b):
 def polyline_for(spec, pi):
     rng = random.Random(spec["ptseed"])
     k = spec["k"]
-    cand = lattice_vertices(rng, k, pi) if spec["stream"] == "lattice" else float_vertices(rng, k, pi)
+    # history pairs (one polyline, two planes): the candidates come from `gen_plane`, and the vertices kept are the ones
+    # that are determined / well conditioned for the plane of the case *and* for the planes listed under `also`
+    gpi = PlaneInfo(build_plane(spec["gen_plane"]), spec["stream"]) if spec.get("gen_plane") else pi
+    pis = [pi] + [PlaneInfo(build_plane(q), spec["stream"]) for q in spec.get("also", [])]
+    cand = lattice_vertices(rng, k, gpi) if spec["stream"] == "lattice" else float_vertices(rng, k, gpi)
     scale = max(gens.maxabs(pi.ref, cand), 1e-300)
     margin = F(1e-7) * F(scale)
     verts = []
     for v in cand:
-        if not determined(pi, v, margin):
+        if not all(determined(q, v, margin) for q in pis):
             continue
-        if verts and not well_conditioned(pi, verts[-1], v):
+        if verts and not all(well_conditioned(q, verts[-1], v) for q in pis):
             continue
         verts.append(v)
     closed = bool(spec["closed"])
-    if closed and len(verts) >= 2 and not well_conditioned(pi, verts[-1], verts[0]):
+    if closed and len(verts) >= 2 and not all(well_conditioned(q, verts[-1], verts[0]) for q in pis):
         closed = False
     return verts, closed, scale
 
@@ -258,7 +284,7 @@ def make(spec):
 
 def segments_of(verts, closed):
     from polliwog import Polyline
-    V = np.array(verts, dtype=np.float64).reshape(-1, 3)
+    V = np.array(np.reshape(verts, (-1, 3)), dtype=np.float64)
     poly = Polyline(V, is_closed=closed)
     segs = V[poly.e] if len(poly.e) else np.zeros((0, 2, 3))
     return V, poly, segs[:, 0].copy(), segs[:, 1].copy()
@@ -278,26 +304,26 @@ def seg_cases(spec, pi, V, closed, A, B, scale, kl, nsingle=2, oracle_extra=None
 
     segs_line = plane_line("xs.segs", pi).vecs(A).vecs(B)
     # stacked
-    add("xs.segs", segs_line, lambda: flag_rows(*plane.line_segment_xsections(A.copy(), B.copy())))
+    add("xs.segs", segs_line, lambda: flag_rows(*plane.line_segment_xsections(shcopy(A), shcopy(B))))
     # every single call, against the model's map-of-single
     add("xs.seg*", segs_line,
-        lambda: single_as_flag_rows([plane.line_segment_xsection(A[i].copy(), B[i].copy()) for i in range(m)]))
+        lambda: single_as_flag_rows([plane.line_segment_xsection(shcopy(A[i]), shcopy(B[i])) for i in range(m)]))
     for i in range(min(nsingle, m)):
         add("xs.seg", plane_line("xs.seg", pi).vec(A[i]).vec(B[i]),
-            lambda i=i: opt_point(plane.line_segment_xsection(A[i].copy(), B[i].copy())))
+            lambda i=i: opt_point(plane.line_segment_xsection(shcopy(A[i]), shcopy(B[i]))))
     R = np.tile(pi.ref, (m, 1)).reshape(-1, 3)
     N = np.tile(pi.n, (m, 1)).reshape(-1, 3)
     isp_line = Line("xs.isp").f(BIG).vecs(A).vecs(B - A).vecs(R).vecs(N)
-    add("xs.isp", isp_line, lambda: rows(intersect_segment_with_plane(A.copy(), B - A, R.copy(), N.copy())))
+    add("xs.isp", isp_line, lambda: rows(intersect_segment_with_plane(shcopy(A), B - A, shcopy(R), shcopy(N))))
     add("xs.isp1*", isp_line,
-        lambda: rows(np.array([intersect_segment_with_plane(A[i].copy(), B[i] - A[i], pi.ref.copy(), pi.n.copy())
+        lambda: rows(np.array([intersect_segment_with_plane(shcopy(A[i]), B[i] - A[i], shcopy(pi.ref), shcopy(pi.n))
                                for i in range(m)]).reshape(-1, 3)))
     for i in range(min(nsingle, m)):
         add("xs.isp1", Line("xs.isp1").f(BIG).vec(A[i]).vec(B[i] - A[i]).vec(pi.ref).vec(pi.n),
-            lambda i=i: flat(intersect_segment_with_plane(A[i].copy(), B[i] - A[i], pi.ref.copy(), pi.n.copy())))
+            lambda i=i: flat(intersect_segment_with_plane(shcopy(A[i]), B[i] - A[i], shcopy(pi.ref), shcopy(pi.n))))
 
     def poly_impl():
-        pts, idx = Polyline(V.copy(), is_closed=closed).intersect_plane(plane, ret_edge_indices=True)
+        pts, idx = Polyline(shcopy(V), is_closed=closed).intersect_plane(plane, ret_edge_indices=True)
         out = [int(len(idx))]
         for j, row in zip(idx, np.asarray(pts).reshape(-1, 3)):
             out += [int(j)] + flat(row)
@@ -348,8 +374,8 @@ def make_line_group(spec):
         if (dn == 0 and (pi.exact or not any(ray))) or abs(dn) >= F(1, 1000) * n1(Fv(ray)) > 0:
             pts.append(pt)
             rays.append(ray)
-    P = np.array(pts, dtype=np.float64).reshape(-1, 3)
-    Rr = np.array(rays, dtype=np.float64).reshape(-1, 3)
+    P = np.array(np.reshape(pts, (-1, 3)), dtype=np.float64)
+    Rr = np.array(np.reshape(rays, (-1, 3)), dtype=np.float64)
     m = len(P)
     scale = max(gens.maxabs(pi.ref, P), 1e-300)
     kl = "%s/%s" % (spec["stream"], "axis" if pi.axis_aligned else "oblique")
@@ -359,12 +385,12 @@ def make_line_group(spec):
         cases.append(Case(spec, line, impl, mode="rat", klass=op + "/" + kl, trivial=m == 0, scale=scale))
 
     lines_line = plane_line("xs.lines", pi).vecs(P).vecs(Rr)
-    add("xs.lines", lines_line, lambda: flag_rows(*plane.line_xsections(P.copy(), Rr.copy())))
+    add("xs.lines", lines_line, lambda: flag_rows(*plane.line_xsections(shcopy(P), shcopy(Rr))))
     add("xs.line*", lines_line,
-        lambda: single_as_flag_rows([plane.line_xsection(P[i].copy(), Rr[i].copy()) for i in range(m)]))
+        lambda: single_as_flag_rows([plane.line_xsection(shcopy(P[i]), shcopy(Rr[i])) for i in range(m)]))
     for i in range(min(3, m)):
         add("xs.line", plane_line("xs.line", pi).vec(P[i]).vec(Rr[i]),
-            lambda i=i: opt_point(plane.line_xsection(P[i].copy(), Rr[i].copy())))
+            lambda i=i: opt_point(plane.line_xsection(shcopy(P[i]), shcopy(Rr[i]))))
     cases[0].oracle = lambda _r: oracle_lines(pi, P, Rr, scale)
     return cases
 
@@ -398,7 +424,7 @@ def isp_raw_data(spec):
         Vv.append([b[i] - a[i] for i in range(3)])
         Q.append(q)
         N.append(n)
-    f = lambda x: np.array(x, dtype=np.float64).reshape(-1, 3)
+    f = lambda x: np.array(np.reshape(x, (-1, 3)), dtype=np.float64)
     return f(S), f(Vv), f(Q), f(N)
 
 
@@ -411,11 +437,11 @@ def make_isp_raw(spec):
     kl = "lattice/raw-normal/" + ("single" if single else "stack")
     if single:
         line = Line("xs.isp1").f(BIG).vec(S[0]).vec(Vv[0]).vec(Q[0]).vec(N[0])
-        impl = lambda: flat(intersect_segment_with_plane(S[0].copy(), Vv[0].copy(), Q[0].copy(), N[0].copy()))
+        impl = lambda: flat(intersect_segment_with_plane(shcopy(S[0]), shcopy(Vv[0]), shcopy(Q[0]), shcopy(N[0])))
         c = Case(spec, line, impl, mode="rat", klass="xs.isp1/" + kl, scale=scale)
     else:
         line = Line("xs.isp").f(BIG).vecs(S).vecs(Vv).vecs(Q).vecs(N)
-        impl = lambda: rows(intersect_segment_with_plane(S.copy(), Vv.copy(), Q.copy(), N.copy()))
+        impl = lambda: rows(intersect_segment_with_plane(shcopy(S), shcopy(Vv), shcopy(Q), shcopy(N)))
         c = Case(spec, line, impl, mode="rat", klass="xs.isp/" + kl, trivial=k == 0, scale=scale)
     c.oracle = lambda _r: oracle_isp_raw(S, Vv, Q, N, single, scale)
     return [c]
@@ -431,18 +457,18 @@ def make_malformed(spec):
     k, k2 = spec["k"], spec["k2"]
     if k2 == k:
         k2 = k + 1
-    mk = lambda n_: np.array([gens.lat(rng, 3) for _ in range(n_)], dtype=np.float64).reshape(-1, 3)
+    mk = lambda n_: np.array(np.reshape([gens.lat(rng, 3) for _ in range(n_)], (-1, 3)), dtype=np.float64)
     plane = Plane(np.array(gens.lat(rng, 2), dtype=np.float64), np.array(rng.choice(gens.AXES)))
     pi = PlaneInfo(plane, "lattice")
     w = spec["which"]
     if w == "segs":
         A, B = mk(k), mk(k2)
         return Case(spec, plane_line("xs.segs", pi).vecs(A).vecs(B),
-                    lambda: flag_rows(*plane.line_segment_xsections(A.copy(), B.copy())), mode="rat", klass="malformed/segs")
+                    lambda: flag_rows(*plane.line_segment_xsections(shcopy(A), shcopy(B))), mode="rat", klass="malformed/segs")
     if w == "lines":
         A, B = mk(k), mk(k2)
         return Case(spec, plane_line("xs.lines", pi).vecs(A).vecs(B),
-                    lambda: flag_rows(*plane.line_xsections(A.copy(), B.copy())), mode="rat", klass="malformed/lines")
+                    lambda: flag_rows(*plane.line_xsections(shcopy(A), shcopy(B))), mode="rat", klass="malformed/lines")
     arrs = [mk(k), mk(k), mk(k), mk(k)]
     arrs[{"isp-v": 1, "isp-q": 2, "isp-n": 3}[w]] = mk(k2)
     return Case(spec, Line("xs.isp").f(BIG).vecs(arrs[0]).vecs(arrs[1]).vecs(arrs[2]).vecs(arrs[3]),
@@ -493,7 +519,7 @@ def make_exh(spec):
     Q = np.tile(np.array(ps["ref"], dtype=np.float64), (len(B2), 1))
     N = np.tile(np.array(ps["n"], dtype=np.float64), (len(B2), 1))
     c = Case(spec, Line("xs.isp").f(BIG).vecs(A2).vecs(B2 - A2).vecs(Q).vecs(N),
-             lambda: rows(intersect_segment_with_plane(A2.copy(), B2 - A2, Q.copy(), N.copy())), mode="rat",
+             lambda: rows(intersect_segment_with_plane(shcopy(A2), B2 - A2, shcopy(Q), shcopy(N))), mode="rat",
              klass="xs.isp/exh/raw-normal", scale=scale)
     c.oracle = lambda _r: oracle_isp_raw(A2, B2 - A2, Q, N, False, scale)
     cases.append(c)
@@ -538,14 +564,14 @@ def oracle_segments(pi, V, closed, A, B, scale):
     m = len(A)
     tol = F(1e-9) * F(scale)
     nn1 = max(n1(pi.fn), F(1))
-    st = guarded(out, "line_segment_xsections", lambda: plane.line_segment_xsections(A.copy(), B.copy()))
+    st = guarded(out, "line_segment_xsections", lambda: plane.line_segment_xsections(shcopy(A), shcopy(B)))
     R = np.tile(pi.ref, (m, 1)).reshape(-1, 3)
     N = np.tile(pi.n, (m, 1)).reshape(-1, 3)
     isp = guarded(out, "intersect_segment_with_plane",
-                  lambda: np.asarray(intersect_segment_with_plane(A.copy(), B - A, R, N)).reshape(-1, 3))
+                  lambda: np.asarray(intersect_segment_with_plane(shcopy(A), B - A, R, N)).reshape(-1, 3))
     pol = guarded(out, "intersect_plane",
-                  lambda: Polyline(V.copy(), is_closed=closed).intersect_plane(plane, ret_edge_indices=True))
-    pol_pts_only = guarded(out, "intersect_plane", lambda: Polyline(V.copy(), is_closed=closed).intersect_plane(plane))
+                  lambda: Polyline(shcopy(V), is_closed=closed).intersect_plane(plane, ret_edge_indices=True))
+    pol_pts_only = guarded(out, "intersect_plane", lambda: Polyline(shcopy(V), is_closed=closed).intersect_plane(plane))
     if st is None or isp is None or pol is None or pol_pts_only is None:
         return dedupe(out)
     spts, svalid = st
@@ -566,9 +592,9 @@ def oracle_segments(pi, V, closed, A, B, scale):
     for i in range(m):
         a, b = A[i], B[i]
         where = "plane(ref=%s, n=%s) a=%s b=%s" % (pi.ref.tolist(), pi.n.tolist(), a.tolist(), b.tolist())
-        sg = guarded(out, "line_segment_xsection", lambda: plane.line_segment_xsection(a.copy(), b.copy()))
+        sg = guarded(out, "line_segment_xsection", lambda: plane.line_segment_xsection(shcopy(a), shcopy(b)))
         i1 = guarded(out, "intersect_segment_with_plane",
-                     lambda: np.asarray(intersect_segment_with_plane(a.copy(), b - a, pi.ref.copy(), pi.n.copy())))
+                     lambda: np.asarray(intersect_segment_with_plane(shcopy(a), b - a, shcopy(pi.ref), shcopy(pi.n))))
         if i1 is None:
             continue
         # stacked = single, row by row
@@ -643,7 +669,7 @@ def oracle_lines(pi, P, Rr, scale):
     m = len(P)
     tol = F(1e-9) * F(scale)
     nn1 = max(n1(pi.fn), F(1))
-    st = guarded(out, "line_xsections", lambda: plane.line_xsections(P.copy(), Rr.copy()))
+    st = guarded(out, "line_xsections", lambda: plane.line_xsections(shcopy(P), shcopy(Rr)))
     if st is None:
         return dedupe(out)
     spts, svalid = st
@@ -652,7 +678,7 @@ def oracle_lines(pi, P, Rr, scale):
     for i in range(m):
         pt, ray = P[i], Rr[i]
         where = "plane(ref=%s, n=%s) pt=%s ray=%s" % (pi.ref.tolist(), pi.n.tolist(), pt.tolist(), ray.tolist())
-        x = guarded(out, "line_xsection", lambda: plane.line_xsection(pt.copy(), ray.copy()))
+        x = guarded(out, "line_xsection", lambda: plane.line_xsection(shcopy(pt), shcopy(ray)))
         if (x is None) != (not bool(svalid[i])):
             out.append(("stacked/lines-valid", "line_xsections flag %s, single form %s; %s" % (bool(svalid[i]), x, where)))
         if bool(svalid[i]) == is_nan_row(spts[i]):
@@ -689,9 +715,9 @@ def oracle_isp_raw(S, Vv, Q, N, single, scale):
     tol = F(1e-9) * F(scale)
     k = len(S)
     if single:
-        res = guarded(out, "intersect_segment_with_plane", lambda: np.asarray(intersect_segment_with_plane(S[0].copy(), Vv[0].copy(), Q[0].copy(), N[0].copy())).reshape(-1, 3))
+        res = guarded(out, "intersect_segment_with_plane", lambda: np.asarray(intersect_segment_with_plane(shcopy(S[0]), shcopy(Vv[0]), shcopy(Q[0]), shcopy(N[0]))).reshape(-1, 3))
     else:
-        res = guarded(out, "intersect_segment_with_plane", lambda: np.asarray(intersect_segment_with_plane(S.copy(), Vv.copy(), Q.copy(), N.copy())).reshape(-1, 3))
+        res = guarded(out, "intersect_segment_with_plane", lambda: np.asarray(intersect_segment_with_plane(shcopy(S), shcopy(Vv), shcopy(Q), shcopy(N))).reshape(-1, 3))
     if res is None:
         return dedupe(out)
     if res.shape != (k, 3):
@@ -699,7 +725,7 @@ def oracle_isp_raw(S, Vv, Q, N, single, scale):
     for i in range(k):
         fa, fv, fq, fn = Fv(S[i]), Fv(Vv[i]), Fv(Q[i]), Fv(N[i])
         where = "start=%s vector=%s point_on_plane=%s normal=%s" % (S[i].tolist(), Vv[i].tolist(), Q[i].tolist(), N[i].tolist())
-        one = guarded(out, "intersect_segment_with_plane", lambda: np.asarray(intersect_segment_with_plane(S[i].copy(), Vv[i].copy(), Q[i].copy(), N[i].copy())))
+        one = guarded(out, "intersect_segment_with_plane", lambda: np.asarray(intersect_segment_with_plane(shcopy(S[i]), shcopy(Vv[i]), shcopy(Q[i]), shcopy(N[i]))))
         if one is None:
             continue
         if is_nan_row(one) != is_nan_row(res[i]) or (not is_nan_row(one) and not close_pt(one, res[i], tol)):
